@@ -110,6 +110,11 @@ pub fn fault(class: usize, nth: i64, errno: i32, persistent: bool) {
 pub fn fault_short_read_then_error(nth: i64, errno: i32) {
     unsafe { (must().fault)(CL_READ as c_int, nth as c_long, errno, 2) }
 }
+/// Every traced write(2) from the nth on is served short (half of what was asked) and returns
+/// that count without an error.
+pub fn fault_short_writes(nth: i64) {
+    unsafe { (must().fault)(CL_WRITE as c_int, nth as c_long, 0, 3) }
+}
 pub fn budget(max_calls: i64) {
     unsafe { (must().budget)(max_calls as c_long) }
 }
